@@ -13,6 +13,9 @@ for p in selftest/$ID/*.patch seeded/$ID*/patch.diff; do
   (cd /repo && git ls-files -z --cached --others --exclude-standard | xargs -0 cp --parents -t "$SCR/repo" 2>/dev/null)
   if ! (cd "$SCR/repo" && patch -p1 -s < "/verif/$p"); then echo "SELFTEST $ID $p: patch does not apply (skipped)"; continue; fi
   out=$(VERIF_NO_EVIDENCE=1 bin/govc verify -property "$ID" -tier quick -repo "$SCR/repo" -noevidence 2>&1); c=$?
-  if [ $c -eq 1 ]; then echo "SELFTEST $ID $p: detected"; else echo "SELFTEST $ID $p: NOT DETECTED (exit $c)"; echo "$out" | tail -3; rc=3; fi
+  if [ $c -eq 1 ]; then echo "SELFTEST $ID $p: detected"; else
+    out2=$(bin/govc verify -property "$ID" -tier thorough -repo "$SCR/repo" -noevidence 2>&1); c2=$?
+    if [ $c2 -eq 1 ]; then echo "SELFTEST $ID $p: detected (thorough tier only)"; else echo "SELFTEST $ID $p: NOT DETECTED (quick exit $c, thorough exit $c2)"; echo "$out2" | tail -3; rc=3; fi
+  fi
 done
 exit $rc
